@@ -11,7 +11,7 @@ namespace Bridge.C09
 
 /-- every channel of the session has exactly one writer thread and one reader thread -/
 theorem session_disciplined (sc : Scenario) : Disciplined Chan.wr Chan.rd (sessionProg sc) := by
-  sorry
+  exact progOfPhases_disciplined (sessionPhases sc)
 
 /-- total number of synchronisation steps of a session -/
 def totalSteps (sc : Scenario) : Nat := (Tid.all.map fun t => (sessionProg sc t).length).sum
@@ -20,13 +20,13 @@ def totalSteps (sc : Scenario) : Nat := (Tid.all.map fun t => (sessionProg sc t)
 sixteen channels are empty -/
 theorem canonical_run_terminates (sc : Scenario) :
     ∃ ts nf, Run parties (Net.init (sessionProg sc)) ts nf ∧ AllDone nf ∧ (∀ c, nf.chan c = []) := by
-  sorry
+  exact progOfPhases_run (sessionPhases sc)
 
 /-- **No lost wake-up**: once a thread can move, no step of any other thread takes that away -/
 theorem no_lost_wakeup (sc : Scenario) (us : List Tid) (n n1 : Net Tid Chan Text LogOp) (t u : Tid)
     (hr : Run parties (Net.init (sessionProg sc)) us n) (htu : t ≠ u)
     (ht : step parties n t = some n1) (hu : (step parties n u).isSome) : (step parties n1 u).isSome := by
-  sorry
+  exact step_persistent (run_disciplined (session_disciplined sc) hr) htu ht hu
 
 /-- **Main theorem.** Whatever the interleaving so far (`us` is arbitrary), the session can always be
 continued, every continuation is finite (the total number of steps is fixed), and it ends with all nine
@@ -38,29 +38,45 @@ theorem session_always_completes (sc : Scenario) (us : List Tid) (n' : Net Tid C
       AllDone nf ∧ (∀ c, nf.chan c = []) ∧
       (∀ c, nf.hist c = sendsOn c (sessionProg sc c.wr)) ∧
       (∀ t, nf.outs t = emitsOf (sessionProg sc t)) := by
-  sorry
+  obtain ⟨ts, nf, hrun, hdone, hchan⟩ := canonical_run_terminates sc
+  have hd := session_disciplined sc
+  obtain ⟨vs, hvs, hlen⟩ := confluence hd hrun (allDone_stuck hdone) us n' hr
+  have hts : ts.length = totalSteps sc := by
+    have h := run_remaining Tid.nodup_all Tid.mem_all hrun
+    rw [allDone_remaining hdone] at h
+    simpa [totalSteps, Net.remaining, Net.init] using h.symm
+  refine ⟨vs, nf, hvs, by omega, hdone, hchan, ?_, ?_⟩
+  · intro c
+    have h := run_hist hd hrun c
+    rwa [hdone, sendsOn, List.append_nil] at h
+  · intro t
+    have h := run_outs hrun t
+    rwa [hdone, emitsOf, List.append_nil] at h
 
 /-- no run is longer than the fixed total: there are no infinite executions (no spinning, no livelock) -/
 theorem runs_are_bounded (sc : Scenario) (us : List Tid) (n' : Net Tid Chan Text LogOp)
     (hr : Run parties (Net.init (sessionProg sc)) us n') : us.length ≤ totalSteps sc := by
-  sorry
+  obtain ⟨vs, nf, _, hlen, _⟩ := session_always_completes sc us n' hr
+  omega
 
 /-- **No deadlock**: the only state in which nobody can move is the completed session -/
 theorem never_deadlocks (sc : Scenario) (us : List Tid) (n' : Net Tid Chan Text LogOp)
     (hr : Run parties (Net.init (sessionProg sc)) us n') (hs : Stuck parties n') :
     AllDone n' ∧ (∀ c, n'.chan c = []) ∧ (∀ c, n'.hist c = sendsOn c (sessionProg sc c.wr)) ∧
     (∀ t, n'.outs t = emitsOf (sessionProg sc t)) := by
-  sorry
+  obtain ⟨vs, nf, hvs, _, hdone, hchan, hhist, houts⟩ := session_always_completes sc [] _ (Run.nil _)
+  obtain ⟨rfl, _⟩ := maximal_runs_agree (session_disciplined sc) hvs (allDone_stuck hdone) hr hs
+  exact ⟨hdone, hchan, hhist, houts⟩
 
 /-- every client is sent "End of session" as its last message (sessions over a non-empty board list) -/
 theorem end_of_session_is_last (sc : Scenario) (h : sc.boards ≠ []) (p : Seat) :
     (sendsOn (Chan.s2c p) (sessionProg sc (.seat p))).getLast? = some MSG_END := by
-  sorry
+  exact session_last_s2c sc h p
 
 /-- main opens the log first, writes one record per configured board in order, and closes it last -/
 theorem log_is_opened_written_closed (sc : Scenario) (h : sc.boards ≠ []) :
     emitsOf (sessionProg sc .main) =
       LogOp.open :: (sc.boards.map fun bd => LogOp.write (recordOf sc bd.1 bd.2)) ++ [LogOp.close] := by
-  sorry
+  exact session_log sc h
 
 end Bridge.C09
